@@ -46,7 +46,9 @@ type farEnd struct {
 	got      int64
 	rdErr    error
 	rdDone   bool
+	rdStopped bool
 	slowRead int // ms between reads
+	stopReadAfter int64 // -1: keeps reading; otherwise stops for good after that many bytes
 	endDelay time.Duration
 	failed   bool
 }
@@ -72,6 +74,9 @@ func runRelay(c *harness.Ctx) {
 		}
 		f.endHow = []string{"eof", "close", "rst", "stay", "stay"}[t.Draw(name+".end", 5)]
 		f.slowRead = []int{0, 0, 0, 5}[t.Draw(name+".slow", 4)]
+		// a far end that stops reading altogether after some bytes: the relay's
+		// writes towards it eventually block on the full send buffer
+		f.stopReadAfter = []int64{-1, -1, -1, 0, 1000}[t.Draw(name+".stopread", 5)]
 		f.endDelay = []time.Duration{0, 0, 3 * time.Second, 30 * time.Second}[t.Draw(name+".enddelay", 4)]
 		return f
 	}
@@ -134,6 +139,10 @@ func runRelay(c *harness.Ctx) {
 		c.S.Go(f.name+"/consumer", func() {
 			buf := make([]byte, 8192)
 			for {
+				if f.stopReadAfter >= 0 && f.got >= f.stopReadAfter {
+					f.rdStopped = true
+					return
+				}
 				if f.slowRead > 0 {
 					c.S.Sleep(time.Duration(f.slowRead) * time.Millisecond)
 				}
@@ -161,7 +170,12 @@ func runRelay(c *harness.Ctx) {
 		ret = copyLoop(la.B, lb.B)
 		returned, returnedAt = true, c.S.Now()
 	})
-	stop := c.S.Run(func() bool { return returned && (A.rdDone || A.endHow == "close") && (B.rdDone || B.endHow == "close") }, 10*time.Minute)
+	stop := c.S.Run(func() bool {
+		return returned && (A.rdDone || A.rdStopped || A.endHow == "close") && (B.rdDone || B.rdStopped || B.endHow == "close")
+	}, 10*time.Minute)
+	if A.stopReadAfter >= 0 || B.stopReadAfter >= 0 {
+		c.Feature("far-end-stops-reading")
+	}
 	c.Reached = true
 	c.Nontrivial = len(A.chunks)+len(B.chunks) > 0
 	if c.S.Violated() {
@@ -169,6 +183,27 @@ func runRelay(c *harness.Ctx) {
 		return
 	}
 	if !returned {
+		// The relay can only notice that a side has ended after it has
+		// forwarded what that side sent before; if the opposite far end has
+		// stopped reading, that forwarding (and with it the teardown) is
+		// legitimately held up by back-pressure.
+		if firstEnd == nil && (A.stopReadAfter >= 0 || B.stopReadAfter >= 0) {
+			// nobody has ended yet: a producer is itself held up by back-pressure
+			c.Feature("nobody-ended-under-back-pressure")
+			ending = true
+			return
+		}
+		if f := firstEnd; f != nil {
+			other := B
+			if f == B {
+				other = A
+			}
+			if other.stopReadAfter >= 0 && f.conn.Out().Written > other.got {
+				c.Feature("teardown-held-up-by-back-pressure")
+				ending = true
+				return
+			}
+		}
 		c.Violate("C19/relay-never-returned", "copyLoop still running 10 virtual minutes after a side ended (A: %s ended=%v, B: %s ended=%v; stop=%v)", A.endHow, A.ended, B.endHow, B.ended, stop)
 		return
 	}
@@ -209,7 +244,7 @@ func runRelay(c *harness.Ctx) {
 		// after everything in flight had time to be forwarded (if both ends
 		// finish at about the same time the relay may legitimately see the
 		// other one's end first)
-		otherHealthy := !other.failed && (other.endHow == "stay" || (other.ended && other.endedAt > f.endedAt+time.Second))
+		otherHealthy := !other.failed && other.stopReadAfter < 0 && (other.endHow == "stay" || (other.ended && other.endedAt > f.endedAt+time.Second))
 		if otherHealthy && other.got != f.produced && (other.endHow == "stay" || other.endHow == "eof") {
 			c.Violate("C19/bytes-lost-at-end", "%s produced %d bytes and then ended (%s) while %s was healthy, but only %d were forwarded before the relay tore the connection down", f.name, f.produced, f.endHow, other.name, other.got)
 			return
